@@ -98,6 +98,15 @@ def stop_stream(ctx, bdir, rng):
             ops.append("x %s %s %s %s %s" % (h(), rng.choice(["-", lst()]), rng.choice(["-", lst()]), lst(), lst()))
         else:
             ops.append("dx %s %s %s %s %s" % (h(), rng.choice(["-", lst()]), rng.choice(["-", lst()]), lst(), lst()))
+    # classification of doubles (nlopt_isinf / isfinite / istiny / isnan vs the bit-pattern predicates every model uses)
+    edge = [0x0, 0x1, 0x000FFFFFFFFFFFFF, 0x0010000000000000, 0x0010000000000001, 0x3FF0000000000000, 0x7FEFFFFFFFFFFFFF,
+            0x7FF0000000000000, 0x7FF0000000000001, 0x7FF8000000000000, 0x7FFFFFFFFFFFFFFF, 0x7FE0000000000000, 0x7FEFAE147AE147AE]
+    for b in edge:
+        for sgn in (0, 1 << 63):
+            ops.append("cls %016x" % (b | sgn))
+    for _ in range(2000 if ctx.thorough else 300):
+        e = rng.choice([0, 1, 2, 1022, 1023, 1024, 2045, 2046, 2047, rng.randrange(2048)])
+        ops.append("cls %016x" % ((rng.randrange(2) << 63) | (e << 52) | (rng.getrandbits(52) if rng.random() < 0.8 else rng.choice([0, 1, (1 << 52) - 1]))))
     # nlopt_optimize_limited: the limits in force during the nested call and the limits restored afterwards
     for sme in (0, -1, 1, 7, 100):
         for me in (0, -3, 1, 5, 7, 8, 1000):
@@ -122,7 +131,7 @@ def stop_stream(ctx, bdir, rng):
 
 
 def run(ctx):
-    bdir, A = runcheck.setup(ctx, ["C03", "Wrap:wrappers_pass|zero_dim"] + runcheck.drv("budget|maxeval|runs_forever|^t1_|^T1$|nevals_eq_costs"))
+    bdir, A = runcheck.setup(ctx, ["C03", "F64Class", "Wrap:wrappers_pass|zero_dim"] + runcheck.drv("budget|maxeval|runs_forever|^t1_|^T1$|nevals_eq_costs"))
     if bdir:
         rng = random.Random(ctx.seed * 61 + 3)
         stop_stream(ctx, bdir, rng)
